@@ -11,6 +11,7 @@
 #include <exception>
 #include <typeinfo>
 #include <fcntl.h>
+#include <sys/resource.h>
 #include <sys/wait.h>
 #include <unistd.h>
 
@@ -84,7 +85,8 @@ ChildOutcome decode_in_child(const std::string& s) {
         __sanitizer_set_death_callback(nullptr);  // no crash.tape / fuzzer artifact from the child
         ::signal(SIGABRT, SIG_DFL);
         ::signal(SIGALRM, SIG_DFL);
-        ::alarm(20);
+        { struct rlimit rl { 10, 12 }; ::setrlimit(RLIMIT_CPU, &rl); }   // CPU time, not wall-clock time, bounds the child
+        ::alarm(900);
         int code = 0;
         try {
             (void)proto::decode_manifest(s);
